@@ -30,7 +30,9 @@ AllowedRead(e) ==
              [] want = "prefix" -> e.res \in {"err", OkK(k - 1)}
              [] OTHER -> FALSE
 
-AllowedWrite(e) == e.failed
+\* a write fault surfaces; a destination that takes fewer bytes than offered WITHOUT an error (shortcount) may also be made good:
+\* the rest offered again, and then the destination holds the complete bytes and the reported CID is the CID of those bytes
+AllowedWrite(e) == e.failed \/ (e.shortcount /\ e.made_good)
 
 \* Two streams read at the same time (the first reader stalls at a structural position while the second is read
 \* completely): each read gives what it gives when run alone ("the same tokens and CIDs as decoding the same
